@@ -135,7 +135,10 @@ impl Ctx {
     }
 
     pub fn fail(&mut self, class: &str, what: String, replay: Value) {
-        if self.direct_failures.len() < 2000 {
+        // at most 300 per class, so that a frequent (recorded) class cannot crowd out another one
+        let n = self.direct_failures.iter().filter(|f| f.class == class).count();
+        *self.distribution.entry(format!("failures:{class}")).or_insert(0) += 1;
+        if n < 300 {
             self.direct_failures.push(DirectFailure { class: class.to_string(), what, replay });
         }
     }
